@@ -277,6 +277,32 @@ pub static OPS: &[OpDef] = &[
             Err(e) => w_dbg(o, &e),
         }
     }),
+    op!("triangulation_overlapping", &["rects", "lattice", "tiles", "blobs", "donuts", "mantissa", "starholes"], false, false, |i, o| {
+        // members of `a` and `b` interleaved: overlapping members and crossing outlines, which the
+        // Delaunay front end resolves by splitting the crossing constraint lines pair by pair
+        let v: Vec<Polygon<f64>> = i.a.0.iter().zip(i.b.0.iter()).flat_map(|(p, q)| [p.clone(), q.clone()]).take(48).collect();
+        match geo::TriangulateDelaunay::constrained_outer_triangulation(&v, Default::default()) {
+            Ok(t) => {
+                o.len(t.len());
+                t.iter().for_each(|t| w_tri(o, t))
+            }
+            Err(e) => w_dbg(o, &e),
+        }
+        match geo::TriangulateDelaunay::constrained_triangulation(&MultiPolygon::new(v.clone()), Default::default()) {
+            Ok(t) => {
+                o.len(t.len());
+                t.iter().for_each(|t| w_tri(o, t))
+            }
+            Err(e) => w_dbg(o, &e),
+        }
+        match geo::TriangulateDelaunay::unconstrained_triangulation(&v) {
+            Ok(t) => {
+                o.len(t.len());
+                t.iter().for_each(|t| w_tri(o, t))
+            }
+            Err(e) => w_dbg(o, &e),
+        }
+    }),
     op!("spade_constrained_triangulation", VALID_FAMS, true, false, |i, o| {
         use geo::TriangulateSpade;
         match TriangulateSpade::constrained_triangulation(&first_poly(i), Default::default()) {
